@@ -26,7 +26,7 @@ import (
 	_ "verif/harness/c12"
 	_ "verif/harness/c13"
 	_ "verif/harness/c14"
-	_ "verif/harness/c15"
+	"verif/harness/c15"
 	_ "verif/harness/c16"
 	_ "verif/harness/c18"
 	_ "verif/harness/c19"
@@ -55,6 +55,11 @@ func main() {
 		for _, h := range reg.All {
 			fmt.Println(h.Property, h.Name, h.Level)
 		}
+	case "deep-parse":
+		// a child process of the C15 harness: parse (and validate) query text nested <depth> levels deep with a small
+		// maximal stack, so that unbounded recursion dies here and not in the harness (a stack overflow is fatal)
+		c15.DeepParseChild(os.Args[2:])
+		return
 	case "run":
 		fs := flag.NewFlagSet("run", flag.ExitOnError)
 		prop := fs.String("prop", "", "property id")
